@@ -43,9 +43,15 @@ func (p *Provider[A]) SetAmmos(ammos []A) {
 	p.ammos = ammos
 }
 
-func (p *Provider[A]) Run(ctx context.Context, deps core.ProviderDeps) error {
+func (p *Provider[A]) Run(ctx context.Context, deps core.ProviderDeps) (err error) {
 	const op = "scenario.Provider.Run"
 	p.Deps = deps
+	defer func() {
+		close(p.sink)
+		if errors.Is(err, decoders.ErrAmmoLimit) || errors.Is(err, decoders.ErrPassLimit) {
+			err = nil
+		}
+	}()
 
 	length := uint(len(p.ammos))
 	if length == 0 {
